@@ -371,9 +371,11 @@ pub fn run(rep: &mut Report, thorough: bool) {
                 }
             }
             Outcome::Err(e) => {
-                rep.case(desc, false);
-                rep.count("dumps_no_verdict(err)", 1);
-                rep.note(&format!("no verdict (Err): {} {plan:?}", e.chars().take(160).collect::<String>()));
+                // every plan here only makes best-effort thread events happen (threads leaving
+                // before attach, a null-stack-pointer thread, delays): the thread list must be produced
+                rep.case(desc, true);
+                let kind: String = e.chars().take_while(|c| *c != '(').collect();
+                rep.violation(&format!("C04 dump failed ({kind}) although only threads vanished / were skipped"), json!({"case": case, "error": e.chars().take(300).collect::<String>()}));
             }
             Outcome::Panic { message, location } => {
                 rep.case(desc, true);
